@@ -54,6 +54,37 @@ Theorem C08_history_refuted_config_defaults : defaults_persist facts_gen = true 
 Proof. exact (refuted_defaults facts_gen). Qed.
 Print Assumptions C08_history_refuted_config_defaults.
 
+(* seeded change C08-03: were `_preprocessing_done = True` assigned BEFORE the work, a set-up that raised would never be
+   redone: [Construct 0; AddArgs 0 {model: subgroups(ma|mb)}; Parse 0 --model zz (exit 2); Parse 0 []] -> AttributeError,
+   and [Construct 0 (NONE); AddArgs 0 {my_x}; AddArgs 0 {my_x}; Parse 0 [] (ConflictResolutionError); Parse 0 []] -> a Namespace *)
+Theorem C08_history_refuted_failed_setup :
+  setup_cached facts_gen = true -> done_after_work facts_gen = false -> ~ history_full facts_gen FILES.
+Proof. exact (refuted_failed_setup facts_gen). Qed.
+Print Assumptions C08_history_refuted_failed_setup.
+Theorem C08_history_refuted_failed_setup_conflict :
+  setup_cached facts_gen = true -> done_after_work facts_gen = false -> ~ history_full facts_gen FILES.
+Proof. exact (refuted_failed_setup_cre facts_gen). Qed.
+Print Assumptions C08_history_refuted_failed_setup_conflict.
+
+(* As the code stands (flag assigned last) a failed set-up leaves the parser as it was: a parser that was not set up
+   is set up after a parse / print_help only if that very set-up succeeded *)
+Theorem C08_failed_setup_leaves_parser : forall f files g p argv,
+  done_after_work f = true -> p_setup p = None ->
+  match p_setup (snd (fst (parse_step f files g p argv))) with
+  | None => True
+  | Some su => exists live args, do_setup (setup_g f g p) (p_cr p) (p_adds p) live args = Ok su
+  end.
+Proof. exact failed_setup_leaves_parser. Qed.
+Print Assumptions C08_failed_setup_leaves_parser.
+Theorem C08_failed_help_leaves_parser : forall f g p,
+  done_after_work f = true -> p_setup p = None ->
+  match p_setup (snd (fst (help_step f g p))) with
+  | None => True
+  | Some su => do_setup (setup_g f g p) (p_cr p) (p_adds p) (p_live p) [] = Ok su
+  end.
+Proof. exact failed_help_leaves_parser. Qed.
+Print Assumptions C08_failed_help_leaves_parser.
+
 (* What IS true, for histories of any length over any number of parsers: under `benign` - a decidable predicate
    whose five clauses (b_spelling, b_cfgarg, b_tuple, b_frozen, b_defaults in Model/History.v) name exactly the
    situations above, each guarded by its switch - every parse answers what a fresh interpreter answers.
@@ -95,10 +126,10 @@ Print Assumptions C08_history_when_repaired.
 (* non-vacuity: three parsers with different settings, interleaved; a config file, a subgroup choice, a tuple,
    print_help/format_help, and a second parse of parser 0 after two other parsers were constructed *)
 Example C08_nonvacuous :
-  let ops := [Construct 0 cfg_dash false; AddArgs 0 K2 "a"; Parse 0 ["--my-x"; "4"];
-              Construct 1 init_cfg true; AddArgs 1 K4 "a"; AddArgs 1 L1 "b";
+  let ops := [Construct 0 cfg_dash CRAuto false; AddArgs 0 K2 "a"; Parse 0 ["--my-x"; "4"];
+              Construct 1 init_cfg CRAuto true; AddArgs 1 K4 "a"; AddArgs 1 L1 "b";
               Parse 1 ["--config_path"; "c1.json"; "--model"; "mb"; "--size_b"; "9"];
-              Construct 2 cfg_nested false; AddArgs 2 K3 "a"; PrintHelp 2; Parse 2 ["--a.pair"; "3"; "x"];
+              Construct 2 cfg_nested CRAuto false; AddArgs 2 K3 "a"; PrintHelp 2; Parse 2 ["--a.pair"; "3"; "x"];
               FormatHelp 0; Parse 0 ["--name"; "w"; "--my-x"; "5"]] in
   benign_gen FILES ops = true
   /\ nth_error (obs_from facts_gen FILES init ops) 6
